@@ -16,7 +16,7 @@ PID = "C17"
 LEVEL = "translation_validation"
 ITEM_CAP = {"quick": 240, "thorough": 900}
 FUNCS = ["qlasskit.tools.py2bexp.{main,convert_to_bool_expression,convert_to_dimacs,output_result}", "qlasskit.tools.py2qasm.{main,convert_to_quasm}", "qlasskit.tools.utils.{parse_str,parse_file}", "qlasskit.tools.tools.find_last_qlassf"]
-BOUNDS = "24 function bodies (1-6 argument bits; single clause CNFs, constants, intermediates/CSE, multi-bit returns, tuples) arranged in scripts of 1-3 functions x forms {none,anf,cnf,dnf,nnf} x formats {sympy,dimacs} x entry point choices x qasm versions {2.0,3.0}; all argument bits symbolic; DIMACS numbering found by the solver (<= 6 variables)"
+BOUNDS = "27 function bodies (some declared through @qlassfa with uncompute=False / to_compile=False / the fast optimizer) (1-6 argument bits; single clause CNFs, constants, intermediates/CSE, multi-bit returns, tuples) arranged in scripts of 1-3 functions x forms {none,anf,cnf,dnf,nnf} x formats {sympy,dimacs} x entry point choices x qasm versions {2.0,3.0}; all argument bits symbolic; DIMACS numbering found by the solver (<= 6 variables)"
 OUTSIDE = "scripts enumerated; tools run in-process (sys.argv / stdout redirected) instead of through a `python` subprocess; tweedledum/recompiler back-ends of py2qasm; scripts with more than one function and no -e option (the statement promises nothing there)"
 ASSUMPTIONS = ["a small precedence parser for sympy's Boolean printer (~ > & > | > ^, as in sympy.printing.precedence)", "the DIMACS variable numbering is not printed: the check asks z3 for ANY bijection under which the clause set has the expression's satisfying assignments"]
 
@@ -45,16 +45,22 @@ BODIES = [
     ("t_pair", "a: Tuple[bool, bool]", "bool", ["return a[0] and not a[1]"]),
     ("b_unit2", "a: bool, b: bool, c: bool", "bool", ["return a and (b or c)"]),
     ("b_big", "a: bool, b: bool, c: bool, d: bool, e: bool", "bool", ["return (a or b) and (c or d) and (e or not a)"]),
+    ("i_mul", "a: Qint[3], b: Qint[3]", "bool", ["c = a * b", "return c > 3"]),
+    ("i_sum3", "a: Qint[3], b: Qint[3]", "bool", ["c = a + b", "d = c + a", "return d == 3"]),
+    ("i_eq3", "a: Qint[4], b: Qint[4]", "bool", ["return a + b == 3"]),
 ]
+# how the function object is created in the script (default: plain @qlassf)
+DECO = {"i_eq3": "@qlassfa(uncompute=False)", "i_sum3": "@qlassfa(to_compile=False)", "b_inter": "@qlassfa(uncompute=False)", "i_gt": "@qlassfa(bool_optimizer=fastOptimizer)"}
 FORMS = [None, "anf", "cnf", "dnf", "nnf"]
 
 
 def fsrc(name, args, ret, body, deco=True):
-    return ("@qlassf\n" if deco else "") + "def %s(%s) -> %s:\n" % (name, args, ret) + "".join("    %s\n" % l for l in body)
+    d = (DECO.get(name, "@qlassf") + "\n") if deco else ""
+    return d + "def %s(%s) -> %s:\n" % (name, args, ret) + "".join("    %s\n" % l for l in body)
 
 
 def script(names, alias=None):
-    out = "from typing import Tuple\nfrom qlasskit import qlassf, Qint, Qint2, Qint4\n\n"
+    out = "from typing import Tuple\nfrom qlasskit import qlassf, qlassfa, Qint, Qint2, Qint4\nfrom qlasskit.boolopt import fastOptimizer\n\n"
     for n in names:
         b = [x for x in BODIES if x[0] == n][0]
         out += fsrc(*b) + "\n"
@@ -193,7 +199,12 @@ def check_item(spec):
     scr = script(spec["funcs"], spec.get("alias"))
     b = [x for x in BODIES if x[0] == spec["target"]][0]
     # the library's own view of the selected function (fresh compilation)
-    ref = qlassf(fsrc(b[0], b[1], b[2], b[3], deco=False), to_compile=True)
+    kw = {}
+    if "fastOptimizer" in DECO.get(b[0], ""):
+        from qlasskit.boolopt import fastOptimizer
+
+        kw["bool_optimizer"] = fastOptimizer
+    ref = qlassf(fsrc(b[0], b[1], b[2], b[3], deco=False), to_compile=True, **kw)
     ins = [x for a in ref.args for x in a.bitvec]
     env = boolq.seq_env(ref.expressions, ins)
     want = z3.And(*[env[r] for r in ref.returns.bitvec])
